@@ -302,6 +302,12 @@ func Layers(s *core.Source, o LayerOpts) mvt.Layers {
 			Version: uint32(1 + s.Intn(2, "version")),
 			Extent:  uint32(256) << uint(s.Intn(6, "extent")),
 		}
+		if s.Chance(1, 8, "oddheader") {
+			// what a zero-valued or hand-filled Layer holds: the format's defaults (version 1, extent 4096), zero, the extremes
+			l.Version = []uint32{0, 1, 2, 3, 1<<32 - 1}[s.Intn(5, "oddversion")]
+			l.Extent = []uint32{0, 1, 4096, 4095, 1 << 31, 1<<32 - 1}[s.Intn(6, "oddextent")]
+			l.Name = []string{"", "a", strings.Repeat("n", 128), strings.Repeat("layer-", 50), "stra\xdfe", "\x00", "roads"}[s.Intn(7, "oddname")]
+		}
 		s.Repeat(0, 4, 8, "feature", func(int) {
 			w := []int{3, 3, 3, 2, 2, 2, 1, 1, 0, 0}
 			if o.NilGeoms {
